@@ -154,6 +154,21 @@ func c13PVSS(t *rapid.T, ev *evProp) {
 		}
 	}
 	rec, err := pvss.RecoverSecret(suite, G, rX, rE, rD, uint32(th), uint32(n))
+	// The caller's slices must still hold the same m verifiable (key, encrypted share, decrypted share)
+	// triples afterwards: a verification pass that filters one slice in place misaligns them, and the
+	// next use of the same slices no longer finds the t valid shares that were supplied.
+	still := 0
+	for k := range rX {
+		if pvss.VerifyDecShare(suite, G, rX[k], rE[k], rD[k]) == nil {
+			still++
+		}
+	}
+	if still != m {
+		violationOrKnown(t, ev, key("RecoverSecret-input-misaligned"), "after RecoverSecret only %d of the caller's %d valid (key, enc, dec) triples still verify (order %v, valid %v)\n%s", still, m, order, valid, ctx)
+	}
+	if rec2, err2 := pvss.RecoverSecret(suite, G, rX, rE, rD, uint32(th), uint32(n)); (err == nil) != (err2 == nil) || (err == nil && !rec.Equal(rec2)) {
+		violationOrKnown(t, ev, key("RecoverSecret-repeat"), "a second RecoverSecret on the same arguments gives err=%v, the first gave err=%v (%d valid shares, t=%d, order %v, valid %v)\n%s", err2, err, m, th, order, valid, ctx)
+	}
 	if m >= th {
 		if err != nil || !rec.Equal(want) {
 			violationOrKnown(t, ev, key("RecoverSecret"), "recovery from %d >= t verified shares (order %v, valid %v): err=%v, correct=%v\n%s", m, order, valid, err, err == nil && rec.Equal(want), ctx)
